@@ -58,7 +58,7 @@ func (w *world) emit(line, ans string) {
 }
 
 // traceSection: sections whose request lines carry an observed outcome and whose answer is `accept`.
-var traceSection = map[string]bool{"vr": true, "mt": true, "pt": true, "hw": true, "hc": true, "lk": true, "lm": true}
+var traceSection = map[string]bool{"vr": true, "mt": true, "pt": true, "hw": true, "hc": true, "lk": true, "lm": true, "uu": true, "vd": true}
 
 // run executes op lines from w.pos on while cont accepts the next line.
 func (w *world) run(cont func(op string) bool) {
@@ -117,6 +117,10 @@ func (w *world) exec(op string) (string, string) {
 			line, ans = w.execLK(f[1:])
 		case "lm":
 			line, ans = w.execLM(f[1:])
+		case "uu":
+			line, ans = w.execUU(f[1:])
+		case "vd":
+			line, ans = w.execVD(f[1:])
 		case "vc":
 			if ans = w.execVC(f[1:]); ans == "" {
 				line = "" // `vc` has emitted its own lines
@@ -214,7 +218,7 @@ func main() {
 	r.MaxSamples = 6
 	r.Rule = "distinct by sha256 of the request lines; non-trivial = vn: a value used by two listener generations and a Wait answered; " +
 		"vr: forced schedule with >= 2 events; pr: >= 2 callbacks; ev: >= 2 hooks and >= 2 triggers; it: a Hook/Unhook executed inside a callback; " +
-		"mt/pt/hw/hc/lk/lm/vc: every stress run"
+		"mt/pt/hw/hc/lk/lm/uu/vd/vc: every stress run"
 	if lines := r.ReplayLines(); lines != nil {
 		emit(r, runOps(0, lines))
 		r.Finish()
